@@ -852,6 +852,9 @@ class Interp:
                 return base.cls.name
             if default is not NotImplemented:
                 return default
+            if self.model.external_bases(base.cls):
+                # inherited from a base class outside the analysed package (e.g. torch.autograd.Function.apply)
+                return External(f"{base.cls.name}.{name}")
             raise SimRaise("AttributeError", f"class {base.cls.name} has no attribute {name}", node, fi)
         if isinstance(base, External):
             return External(f"{base.dotted}.{name}")
